@@ -12,6 +12,9 @@
 #include <string>
 #include <vector>
 
+#include <cxxabi.h>
+#include <dlfcn.h>
+#include <execinfo.h>
 #include <linux/futex.h>
 #include <pthread.h>
 #include <sched.h>
